@@ -306,6 +306,7 @@ pub enum Op {
     Heap(usize),
     Serde(usize),
     Cmp(usize, usize, bool, usize, usize, bool),
+    Allocs(usize),
 }
 
 #[derive(Clone, Debug, PartialEq)]
@@ -365,6 +366,7 @@ pub fn parse_op(s: &str) -> Result<Op, String> {
         ["resregs", k, ks] => Op::ReserveRegions(n(k)?, ints(ks)?),
         ["heap", k] => Op::Heap(n(k)?),
         ["serde", k] => Op::Serde(n(k)?),
+        ["allocs", k] => Op::Allocs(n(k)?),
         ["cmp", k, i, a, l, j, b] => Op::Cmp(n(k)?, n(i)?, *a == "1", n(l)?, n(j)?, *b == "1"),
         _ => return Err(format!("bad op: {s}")),
     })
@@ -372,9 +374,31 @@ pub fn parse_op(s: &str) -> Result<Op, String> {
 
 pub const NSLOTS: usize = 4;
 
+/// counting allocator: alloc + realloc calls (frees are not counted)
+pub struct Counting;
+pub static ALLOCS: std::sync::atomic::AtomicUsize = std::sync::atomic::AtomicUsize::new(0);
+unsafe impl std::alloc::GlobalAlloc for Counting {
+    unsafe fn alloc(&self, l: std::alloc::Layout) -> *mut u8 {
+        ALLOCS.fetch_add(1, std::sync::atomic::Ordering::Relaxed);
+        std::alloc::System.alloc(l)
+    }
+    unsafe fn dealloc(&self, p: *mut u8, l: std::alloc::Layout) {
+        std::alloc::System.dealloc(p, l)
+    }
+    unsafe fn realloc(&self, p: *mut u8, l: std::alloc::Layout, n: usize) -> *mut u8 {
+        ALLOCS.fetch_add(1, std::sync::atomic::Ordering::Relaxed);
+        std::alloc::System.realloc(p, l, n)
+    }
+}
+pub fn allocs() -> usize {
+    ALLOCS.load(std::sync::atomic::Ordering::Relaxed)
+}
+
 struct Slot<R: Region> {
     r: R,
     log: Vec<R::Index>,
+    /// allocator calls made inside push calls on this slot since the last `allocs` op
+    push_allocs: usize,
 }
 
 pub fn heap_of<R: Region>(r: &R) -> Vec<(usize, usize)> {
@@ -386,7 +410,7 @@ pub fn heap_of<R: Region>(r: &R) -> Vec<(usize, usize)> {
 /// Run one history; the result has one observation group per executed op.  The history stops
 /// after a panicking mutation or an ill-typed input, as the model's does.
 pub fn run_entry<R: Caps>(ops: &[Op]) -> Vec<Vec<Obs>> {
-    let mut slots: Vec<Slot<R>> = (0..NSLOTS).map(|_| Slot { r: R::default(), log: vec![] }).collect();
+    let mut slots: Vec<Slot<R>> = (0..NSLOTS).map(|_| Slot { r: R::default(), log: vec![], push_allocs: 0 }).collect();
     let mut out = vec![];
     for op in ops {
         let mut stop = false;
@@ -398,7 +422,10 @@ pub fn run_entry<R: Caps>(ops: &[Op]) -> Vec<Vec<Obs>> {
                 }
                 Some(v) => {
                     let s = &mut slots[*k];
-                    match caught(|| s.r.push_form(&v, *f)) {
+                    let a0 = allocs();
+                    let pushed = caught(|| s.r.push_form(&v, *f));
+                    s.push_allocs += allocs() - a0;
+                    match pushed {
                         Some(i) => {
                             s.log.push(i);
                             vec![Obs::Idx(R::idx_u(i))]
@@ -462,7 +489,7 @@ pub fn run_entry<R: Caps>(ops: &[Op]) -> Vec<Vec<Obs>> {
             Op::Merge(d, ks) => {
                 match caught(|| R::merge_regions(ks.iter().map(|k| &slots[*k].r))) {
                     Some(r) => {
-                        slots[*d] = Slot { r, log: vec![] };
+                        slots[*d] = Slot { r, log: vec![], push_allocs: 0 };
                         vec![Obs::None]
                     }
                     None => {
@@ -474,7 +501,7 @@ pub fn run_entry<R: Caps>(ops: &[Op]) -> Vec<Vec<Obs>> {
             Op::Clone(d, k) => match caught(|| slots[*k].r.try_clone()) {
                 Some(Some(r)) => {
                     let log = slots[*k].log.clone();
-                    slots[*d] = Slot { r, log };
+                    slots[*d] = Slot { r, log, push_allocs: 0 };
                     vec![Obs::None]
                 }
                 Some(None) => {
@@ -493,7 +520,7 @@ pub fn run_entry<R: Caps>(ops: &[Op]) -> Vec<Vec<Obs>> {
                     let mut dst = std::mem::take(&mut slots[*d].r);
                     let res = caught(|| dst.try_clone_from(&slots[*k].r));
                     let log = slots[*k].log.clone();
-                    slots[*d] = Slot { r: dst, log };
+                    slots[*d] = Slot { r: dst, log, push_allocs: 0 };
                     match res {
                         Some(true) => vec![Obs::None],
                         Some(false) => {
@@ -587,6 +614,11 @@ pub fn run_entry<R: Caps>(ops: &[Op]) -> Vec<Vec<Obs>> {
                     Some(v) => vec![Obs::Val(U::L(v.into_iter().map(|(a, b)| U::pair(a, b)).collect()))],
                     None => vec![Obs::Panic],
                 }
+            }
+            Op::Allocs(k) => {
+                let c = slots[*k].push_allocs;
+                slots[*k].push_allocs = 0;
+                vec![Obs::Val(U::nat(c))]
             }
             Op::Serde(k) => match caught(|| slots[*k].r.try_serde()) {
                 Some(Some(r)) => {
